@@ -309,7 +309,7 @@ Groups == {GroupOf[t] : t \in Tables} \ {""}
 Seg(t, prog) == [k |-> "prims", t |-> t, prog |-> prog]
 Mark(k, step) == [k |-> k, step |-> step]
 
-Idle == mode = "run" /\ queue = <<>>
+Idle == mode = "run" /\ queue = <<>> /\ \A t \in Tables : ~tab[t].failed
 JustOpened == mode = "run" /\ queue # <<>> /\ Head(queue).k = "opened"
 Settled == Idle \/ JustOpened
 Head0 == LET t == CHOOSE t \in Tables : TRUE IN Items(tab[t])     \* common head when aligned
@@ -317,6 +317,8 @@ Head0 == LET t == CHOOSE t \in Tables : TRUE IN Items(tab[t])     \* common head
 (* every ordering of a set of tables *)
 RECURSIVE Orders(_)
 Orders(S) == IF S = {} THEN {<<>>} ELSE UNION {{<<t>> \o o : o \in Orders(S \ {t})} : t \in S}
+
+FailedOf(tb) == \E t \in Tables : tb[t].failed
 
 (* freezer.go:repair after all tables are open, as three successive steps each compiled    *)
 (* from the state the previous one left (tb: a table map)                                   *)
@@ -338,11 +340,13 @@ AlignProgs(step, order) == [i \in 1..Len(order) |-> Seg(order[i], AlignProg(tab,
 (* the head and the tails computed by repair                                                *)
 OpenAll(tb) ==
   \* (TLCEval: function constructors are lazy in TLC; without it every application re-runs the repair)
+  \* A failed table open / alignment step ends NewFreezer with an error (or a panic): later stages do not run.
   LET t0 == TLCEval([t \in Tables |-> Run(tb[t], OpenP(tb[t]))])
-      t1 == TLCEval([t \in Tables |-> Run(t0[t], AlignProg(t0, 1, t))])
-      t2 == TLCEval([t \in Tables |-> Run(t1[t], AlignProg(t1, 2, t))])
-      t3 == TLCEval([t \in Tables |-> Run(t2[t], AlignProg(t2, 3, t))])
-  IN [tabs |-> t3, head |-> CommonHeadOf(t0), tails |-> TLCEval([grp \in Groups |-> GroupTailOf(t2, grp)])]
+      t1 == IF FailedOf(t0) THEN t0 ELSE TLCEval([t \in Tables |-> Run(t0[t], AlignProg(t0, 1, t))])
+      t2 == IF FailedOf(t1) THEN t1 ELSE TLCEval([t \in Tables |-> Run(t1[t], AlignProg(t1, 2, t))])
+      t3 == IF FailedOf(t2) THEN t2 ELSE TLCEval([t \in Tables |-> Run(t2[t], AlignProg(t2, 3, t))])
+  IN IF FailedOf(t3) THEN [tabs |-> t3, head |-> 0, tails |-> TLCEval([grp \in Groups |-> 0])]
+     ELSE [tabs |-> t3, head |-> CommonHeadOf(t0), tails |-> TLCEval([grp \in Groups |-> GroupTailOf(t2, grp)])]
 
 (* ------------------------------ actions ------------------------------ *)
 Init == /\ tab = [t \in Tables |-> NewTable]
@@ -365,7 +369,8 @@ Step == /\ mode = "run" /\ queue # <<>>
            CASE s.k = "prims" ->
                   IF s.prog = <<>> THEN queue' = Tail(queue) /\ UNCHANGED <<tab, g>>
                   ELSE /\ tab' = [tab EXCEPT ![s.t] = Exec(@, Head(s.prog))]
-                       /\ queue' = << [s EXCEPT !.prog = Tail(@)] >> \o Tail(queue)
+                       /\ queue' = IF Head(s.prog).p = "fail" THEN <<>>            \* the call / NewFreezer ends with an error
+                                   ELSE << [s EXCEPT !.prog = Tail(@)] >> \o Tail(queue)
                        /\ UNCHANGED g
              [] s.k = "align" ->
                   /\ \E order \in Orders(Tables) : queue' = AlignProgs(s.step, order) \o Tail(queue)
@@ -430,8 +435,6 @@ CrashCut == /\ mode = "down" /\ uncut # {}
 (* properties (C24), stated for the moments the freezer is open and no call is running     *)
 (* (JustOpened: reopened after a crash, compared with what was promised before it)         *)
 (* ------------------------------------------------------------------------------------- *)
-FailedOf(tb) == \E t \in Tables : tb[t].failed
-
 (* one contiguous range shared by all tables (tail per group; 0 for tables that are not prunable) *)
 AlignedOf(tb) ==
   /\ \A t, u \in Tables : Items(tb[t]) = Items(tb[u])
@@ -450,6 +453,16 @@ DurableOf(tb, gh) ==
      lo < gh.hi => Items(tb[t]) >= gh.hi /\ Hidden(tb[t]) <= lo
 
 NeverFails == ~FailedOf(tab)
+
+(* TODO-KNOWN-FINDING (spec/store/NOTES.md C24-F1, C24-F2): the two ways the pinned code is known to    *)
+(* refuse to reopen.  F1: more items hidden than stored (virtualTail written without fsync by           *)
+(* TruncateTail survives while the unflushed index entries do not) - newTable fails with EOF.           *)
+(* F2: a table that is not prunable is left with 0 items while another table has items (first          *)
+(* SyncAncient or TruncateHead(0) interrupted); Freezer.repair takes it for a freshly added table,     *)
+(* fast-forwards it with truncateTail and then panics on its non-zero tail.                            *)
+KnownF1(tb) == \E t \in Tables : tb[t].failed /\ Hidden(tb[t]) > Items(tb[t])
+KnownF2(tb) == \E t \in Tables : tb[t].failed /\ GroupOf[t] = "" /\ Hidden(tb[t]) # 0
+FailsOnlyKnown == FailedOf(tab) => KnownF1(tab) \/ KnownF2(tab)
 Aligned == Settled => AlignedOf(tab)
 ReadableCorrect == Settled => ReadableCorrectOf(tab, g)
 Durable == Settled => DurableOf(tab, g)
